@@ -1,7 +1,7 @@
 (* Property C10 (PARTIAL) — theorem statements only, each closed by `exact` and followed by Print Assumptions. *)
 From Coq Require Import List String NArith ZArith Bool Permutation.
-From C10 Require Import Model Sorted Messages Dag GlobalsTable InstanceTable Statement.
-From Gen Require Import Globals SortedSites InstanceState.
+From C10 Require Import Model Sorted Messages Dag GlobalsTable InstanceTable Topsort IterTable Statement.
+From Gen Require Import Globals SortedSites InstanceState IterSites.
 Import ListNotations.
 
 (* ---- (b) sorted choke points: any two enumerations of the same dict / set give the same bytes ---- *)
@@ -57,6 +57,44 @@ Theorem order_ascc_perm_invariant :
     Permutation enum enum' -> NoDup (map snd enum) -> order_ascc enum = order_ascc enum'.
 Proof. exact order_ascc_perm. Qed.
 Print Assumptions order_ascc_perm_invariant.
+
+(* graph_utils.topsort + the per-level sorted(ready, key=-order) of build.sorted_components: the list of levels is a
+   function of the graph as a SET of vertices and edges -- independent of the insertion order of the `data` dict
+   (nodes ~ nodes'), of the enumeration of each dependency set (deps m, deps' m have the same members) and of the
+   iteration order of every `ready` set (shuffle, shuffle' arbitrary permutations); unbounded graphs *)
+Theorem sorted_components_levels_order_independent :
+  forall key shuffle shuffle' deps deps' nodes nodes',
+    (forall l, Permutation (shuffle l) l) -> (forall l, Permutation (shuffle' l) l) ->
+    (forall m, same_members (deps m) (deps' m)) -> Permutation nodes nodes' -> NoDup (map key nodes) ->
+    sorted_levels key shuffle deps nodes = sorted_levels key shuffle' deps' nodes'.
+Proof. exact sorted_levels_invariant. Qed.
+Print Assumptions sorted_components_levels_order_independent.
+
+(* order-insensitive folds: a fold whose step commutes does not see the enumeration order of the set it iterates *)
+Theorem commutative_fold_forgets_enumeration_order :
+  forall (A B : Type) (f : A -> B -> A), (forall a x y, f (f a x) y = f (f a y) x) ->
+    forall l l', Permutation l l' -> forall a, fold_left f l a = fold_left f l' a.
+Proof. exact fold_left_perm_comm. Qed.
+Print Assumptions commutative_fold_forgets_enumeration_order.
+
+(* instance: the sort key of sorted_components, min(graph[id].order for id in scc.mod_ids), over a set of ids *)
+Theorem scc_min_order_key_perm_invariant :
+  forall order scc scc' start, Permutation scc scc' -> min_order order scc start = min_order order scc' start.
+Proof. exact min_order_perm. Qed.
+Print Assumptions scc_min_order_key_perm_invariant.
+
+(* every for-loop / comprehension of the functions that produce cache records and processing orders (generated table):
+   sorted (machine-checked), ordered origin, order-insensitive fold, or a listed exception; no exception today *)
+Theorem every_iteration_site_sorted_or_order_insensitive :
+  forall site b, In (site, b) iteration_sites ->
+    exists c, itlookup site iteration_classification = Some c /\
+              (c = ISorted -> b = true) /\ (c = IException -> In site iteration_exceptions).
+Proof. exact iter_table. Qed.
+Print Assumptions every_iteration_site_sorted_or_order_insensitive.
+
+Theorem no_unsorted_exception_left : iteration_exceptions = [].
+Proof. exact iter_exceptions_now. Qed.
+Print Assumptions no_unsorted_exception_left.
 
 (* build.deps_to_json, with the flag regenerated from the current source (true since fix 6f793e2: sorted(v)) *)
 Theorem deps_to_json_perm_invariant : deps_json_enumeration_independent deps_to_json_sorted.
@@ -160,6 +198,12 @@ Example ex_sorted : sorted_names [[98%N]; [97%N; 98%N]; [97%N]] = [[97%N]; [97%N
 Proof. reflexivity. Qed.
 Example ex_order_ascc : order_ascc [([97%N], 3%Z); ([98%N], 7%Z); ([99%N], 5%Z)] = [[98%N]; [99%N]; [97%N]].
 Proof. reflexivity. Qed.
+Example ex_sorted_levels :
+  sorted_levels (fun n => Zpos n) (fun l => l) (fun n => match n with 1%positive => [2; 3]%positive | 2%positive => [4%positive] | 3%positive => [4; 3]%positive | _ => [] end)
+                [1; 2; 3; 4]%positive = [[4]; [3; 2]; [1]]%positive
+  /\ sorted_levels (fun n => Zpos n) (@rev positive) (fun n => match n with 1%positive => [3; 2]%positive | 2%positive => [4%positive] | 3%positive => [3; 4]%positive | _ => [] end)
+                [4; 3; 1; 2]%positive = [[4]; [3; 2]; [1]]%positive.
+Proof. split; reflexivity. Qed.
 Example ex_topo : topological (fun n => match n with 3%positive => [1; 2]%positive | 2%positive => [1%positive] | _ => [] end)
                               [1; 2; 3]%positive.
 Proof.
